@@ -118,7 +118,7 @@ InitSlot(tok) == [tx |-> InitTx(tok), rx |-> 0, reset |-> FALSE, colour |-> 0]
 
 \* Timeslot.process_burst: returns [slot, tok, out]
 SlotStep(s, tok, b) ==
-  LET colour == IF b.cls # "VS" THEN b.cc ELSE s.colour     \* voice sync carries no colour code
+  LET colour == IF b.cls # "VS" /\ b.cc >= 0 THEN b.cc ELSE s.colour     \* voice sync (and the Reserved sync, cc -1) carries no colour code
       r   == ProcessPacket([tx |-> s.tx, ev |-> <<>>, tok |-> tok, reset |-> s.reset], b)
       w   == r[1]
       seq == (s.rx + 1) % 256
